@@ -472,6 +472,8 @@ pub fn gen_model(rng: &mut Rng) -> QpModel {
     rng.shuffle(&mut bs);
     // values around the infinity threshold: exactly at, above, below
     let mut side = move |rng: &mut Rng, neg_bias: bool| -> f64 {
+        // the statement speaks of magnitudes: now and then the value beyond the threshold carries the other sign
+        let neg_bias = if rng.chance(1, 6) { !neg_bias } else { neg_bias };
         match rng.below(8) {
             0 => {
                 if neg_bias {
@@ -504,8 +506,8 @@ pub fn gen_model(rng: &mut Rng) -> QpModel {
     let cu = sparse(rng, ncons, (1, 2), &mut |r| side(r, false));
     let l_default = F(*rng.pick(&[0.0, 0.0, -infinity, -1.5, 1.0]));
     let u_default = F(*rng.pick(&[1.0, infinity, infinity, 3.5, 1.0]));
-    let l = sparse(rng, nvars, (1, 3), &mut |r| *r.pick(&[0.0, -2.0, -infinity, -infinity * 2.0, 0.5, 1.0]));
-    let u = sparse(rng, nvars, (1, 3), &mut |r| *r.pick(&[1.0, 2.0, infinity, infinity * 4.0, 7.5, 1.0]));
+    let l = sparse(rng, nvars, (1, 3), &mut |r| *r.pick(&[0.0, -2.0, -infinity, -infinity * 2.0, 0.5, 1.0, infinity, infinity * 2.0]));
+    let u = sparse(rng, nvars, (1, 3), &mut |r| *r.pick(&[1.0, 2.0, infinity, infinity * 4.0, 7.5, 1.0, -infinity, -infinity * 4.0]));
     let type_default = if vkind == 'M' { *rng.pick(&[0u8, 2]) } else { rng.below(3) as u8 };
     let mut types = vec![];
     for i in 0..nvars {
